@@ -1,11 +1,23 @@
 /- C16 driver: machine definitions and call sequences in, trace/result/snapshot lines out
-(same format as props/C16/harness.cpp).  Uses the model with the stop() repair (`fix = true`). -/
+(same format as props/C16/harness.cpp).
+
+Two models run side by side:
+* the ARENA model (`TboxModel/C16/Arena.lean`) executes every case (any machine may be the target
+  of a script call or of a top-level call, a machine may be attached to several states,
+  definition calls after `go`, any nesting depth);
+* the TREE model (`TboxModel/C16/Model.lean`, the one the theorems are about) executes the cases
+  inside its fragment: every machine attached at most once, script targets = own machine or an
+  ancestor, calls addressed to the root, no definition call after `go`, depth ≤ `maxDepth`.
+  On those cases both answers must agree; a disagreement prints `M MODEL-MISMATCH` (the harness
+  never prints it, so the check flags it).
+Both use the code with patches C16-01 and C16-02. -/
 import TboxModel.Util
+import TboxModel.C16.Arena
 import TboxModel.C16.Model
 open Tbox.Util Tbox.C16
 
-/-- deepest nesting the protocol accepts (levels of sub-machines below the root) -/
-def maxDepth : Nat := 3
+/-- deepest nesting the tree model is instantiated at by the driver (the theorems hold for all depths) -/
+def maxDepth : Nat := 8
 
 /-- strict decimal: optional '-', 1..9 digits -/
 def int? (s : String) : Option Int :=
@@ -22,13 +34,24 @@ def nat? (s : String) : Option Nat := do
   let i ← int? s
   if i < 0 || s.startsWith "-" then none else some i.toNat
 
-def sop? (t : String) : Option SOp :=
+/-- "<id>" | "<id>:<tag>" -/
+def event? (s : String) : Option Event :=
+  match s.splitOn ":" with
+  | [a] => (int? a).map fun i => { id := i, extra := 0 }
+  | [a, b] => do let i ← int? a; let t ← nat? b; pure { id := i, extra := t }
+  | _ => none
+
+def sop? (t0 : String) : Option SOp := do
+  let (t, tgt) ← match t0.splitOn "@" with
+    | [a] => some (a, none)
+    | [a, b] => (nat? b).map fun k => (a, some k)
+    | _ => none
   match t with
-  | "o" => some .obs
-  | "s" => some (.call .start)
-  | "x" => some (.call .stop)
-  | "r" => some (.call .restart)
-  | _ => if t.startsWith "e" then (int? (t.drop 1).toString).map (fun e => .call (.run e)) else none
+  | "o" => some (.obs tgt)
+  | "s" => some (.call tgt .start)
+  | "x" => some (.call tgt .stop)
+  | "r" => some (.call tgt .restart)
+  | _ => if t.startsWith "e" then (event? (t.drop 1).toString).map (fun e => .call tgt (.run e)) else none
 
 /-- "." = empty script; else comma separated ops -/
 def script? (s : String) : Option Script :=
@@ -67,148 +90,253 @@ def table? (s : String) : Option (List (Int × Int) × Int) := do
       pure (tbl, d)
   | _ => none
 
-abbrev Raw := MachOf Unit Nat
+def scriptMax (sc : Script) : Option Nat :=
+  sc.foldl (fun acc op =>
+    let t := match op with | .obs t => t | .call t _ => t
+    match acc, t with
+    | some a, some b => some (max a b)
+    | none, some b => some b
+    | a, none => a) none
+
+def maxOpt (a b : Option Nat) : Option Nat :=
+  match a, b with
+  | some x, some y => some (max x y)
+  | some x, none => some x
+  | none, y => y
+
+def optScriptMax (p : Option Script) : Option Nat := p.bind scriptMax
+
+/-! ### tree model plumbing -/
 
 def StateDef.withSub {A B : Type} (s : StateDef A) (x : Option B) : StateDef B :=
   { id := s.id, enter := s.enter, exit := s.exit, routes := s.routes, events := s.events, dflt := s.dflt, sub := x }
 
-/-- flat pool → tree of depth ≤ n (fails when nested deeper) -/
-def conv : (n : Nat) → List Raw → Nat → Option (Mach n)
-  | 0, pool, k => do
-      let r ← pool[k]?
+/-- arena → tree of depth ≤ n below machine `k` (fails when nested deeper) -/
+def conv : (n : Nat) → Arena → Nat → Option (Mach n)
+  | 0, g, k => do
+      let r ← g[k]?
       let sts ← r.states.mapM (fun s => match s.sub with
         | none => some (StateDef.withSub s (none : Option Empty))
         | some _ => none)
-      pure ({ init := r.init, states := sts, cb := r.cb, rt := {} } : MachOf Rt Empty)
-  | n + 1, pool, k => do
-      let r ← pool[k]?
+      pure ({ mid := k, init := r.init, states := sts, cb := r.cb, rt := r.rt } : MachOf Rt Empty)
+  | n + 1, g, k => do
+      let r ← g[k]?
       let sts ← r.states.mapM (fun s => match s.sub with
         | none => some (StateDef.withSub s (none : Option (Mach n)))
-        | some j => (conv n pool j).map (fun x => StateDef.withSub s (some x)))
-      pure ({ init := r.init, states := sts, cb := r.cb, rt := {} } : MachOf Rt (Mach n))
+        | some j => (conv n g j).map (fun x => StateDef.withSub s (some x)))
+      pure ({ mid := k, init := r.init, states := sts, cb := r.cb, rt := r.rt } : MachOf Rt (Mach n))
+
+/-- machines below `k` (with `k`), each with the list of its ancestors; `none` if a machine is met twice -/
+def treeNodes : Nat → Arena → Nat → List Nat → Option (List (Nat × List Nat))
+  | 0, _, _, _ => none
+  | f + 1, g, k, anc => do
+      let r ← g[k]?
+      let subs := r.states.filterMap (·.sub)
+      let below ← subs.mapM (fun j => treeNodes f g j (k :: anc))
+      pure ((k, anc) :: below.flatten)
+
+def allScripts (r : ARec) : List Script :=
+  r.cb.toList ++ r.states.flatMap (fun s =>
+    s.enter.toList ++ s.exit.toList ++
+    s.routes.flatMap (fun rt => (rt.guard.map (·.script)).toList ++ rt.action.toList) ++
+    s.events.map (fun p => p.2.script) ++ (s.dflt.map (·.script)).toList)
+
+/-- the case is inside the tree model's fragment -/
+def inFragment (g : Arena) (root : Nat) : Bool :=
+  match treeNodes (g.length + 1) g root [] with
+  | none => false
+  | some nodes =>
+    let ids := nodes.map (·.1)
+    ids.eraseDups.length == ids.length &&
+    nodes.all (fun (k, anc) =>
+      (allScripts (g.get k)).all (fun sc => sc.all (fun op =>
+        let t := match op with | .obs t => t | .call t _ => t
+        match t with
+        | none => true
+        | some j => j == k || anc.contains j)))
 
 structure DS where
-  pool : List Raw := []
-  consumed : List Nat := []
+  g : Arena := []
   cur : Option Nat := none
-  root : Option (Mach maxDepth) := none
+  root : Option Nat := none
+  maxT : Option Nat := none
+  tree : Option (Mach maxDepth) := none
 
 def b01 (b : Bool) : String := if b then "1" else "0"
 
 def viewStr (v : View) : String :=
   s!"{v.curr},{v.last},{v.next},{b01 v.running},{b01 v.term}"
 
-def pathStr (p : List StateId) : String :=
-  if p.isEmpty then "/" else String.join (p.map fun s => "/" ++ toString s)
+def evS (e : Event) : String := if e.extra == 0 then toString e.id else s!"{e.id}:{e.extra}"
 
 def callStr : Call → String
-  | .start => "start" | .stop => "stop" | .restart => "restart" | .run e => s!"run:{e}"
+  | .start => "start" | .stop => "stop" | .restart => "restart" | .run e => "run:" ++ evS e
+
+def tgtS (t : Option Nat) : String := match t with | none => "" | some k => s!"@{k}"
 
 /-- printed events: callbacks that exist, and what their bodies did -/
-def evStr (ev : Ev) : Option String :=
-  let p := "P T " ++ pathStr ev.path ++ " "
-  match ev.kind with
-  | .enter s e true => some (p ++ s!"enter {s} {e}")
-  | .exit s e true => some (p ++ s!"exit {s} {e}")
-  | .action s (some i) e true => some (p ++ s!"act {s} {i} {e}")
-  | .action s none e true => some (p ++ s!"act {s} h {e}")
-  | .guard s i e r => some (p ++ s!"guard {s} {i} {e} {b01 r}")
-  | .handler s (some k) e r => some (p ++ s!"hdl {s} {k} {e} {r}")
-  | .handler s none e r => some (p ++ s!"hdl {s} * {e} {r}")
-  | .notify a b e true => some (p ++ s!"chg {a} {b} {e}")
-  | .obs v => some (p ++ "obs " ++ viewStr v)
-  | .call c r v w => some (p ++ s!"call {callStr c} {b01 r} {viewStr v} {viewStr w}")
-  | .unmodelled => some (p ++ "UNMODELLED")
+def kindStr (k : Kind) : Option String :=
+  match k with
+  | .enter s e true => some s!"enter {s} {evS e}"
+  | .exit s e true => some s!"exit {s} {evS e}"
+  | .action s (some i) e true => some s!"act {s} {i} {evS e}"
+  | .action s none e true => some s!"act {s} h {evS e}"
+  | .guard s i e r => some s!"guard {s} {i} {evS e} {b01 r}"
+  | .handler s (some k) e r => some s!"hdl {s} {k} {evS e} {r}"
+  | .handler s none e r => some s!"hdl {s} * {evS e} {r}"
+  | .notify a b e true => some s!"chg {a} {b} {evS e}"
+  | .obs t v => some ("obs" ++ tgtS t ++ " " ++ viewStr v)
+  | .call t c r v w => some s!"call{tgtS t} {callStr c} {b01 r} {viewStr v} {viewStr w}"
+  | .unmodelled => some "UNMODELLED"
+  | .foreign t => some s!"FOREIGN {t}"
   | _ => none
 
+def aevStr (ev : AEv) : Option String := (kindStr ev.kind).map fun s => s!"P T {ev.mid} " ++ s
+
+def snapLine (g : Arena) : String :=
+  "P S " ++ " ".intercalate ((List.range g.length).map fun k => s!"{k}:" ++ viewStr (g.view k))
+
+/-! tree side: events carry the path from the root; print them with the machine index -/
 section
 variable {Sub : Type}
-def snapLevel (subSnap : List StateId → Sub → List String) (path : List StateId) (m : MachOf Rt Sub) : List String :=
-  (pathStr path ++ ":" ++ viewStr m.rt.view) ::
-    m.states.flatMap (fun s => match s.sub with
-      | some x => subSnap (path ++ [s.id]) x
-      | none => [])
+def midLevel (subMid : Sub → List StateId → Option Nat) (m : MachOf Rt Sub) : List StateId → Option Nat
+  | [] => some m.mid
+  | s :: rest => match (m.findState s).bind (·.sub) with
+    | some x => subMid x rest
+    | none => none
+def viewsLevel (subViews : Sub → List (Nat × View)) (m : MachOf Rt Sub) : List (Nat × View) :=
+  (m.mid, m.rt.view) :: m.states.flatMap (fun s => match s.sub with | some x => subViews x | none => [])
 end
 
-def snap : (n : Nat) → List StateId → Mach n → List String
-  | 0 => snapLevel (fun _ x => x.elim)
-  | n + 1 => snapLevel (snap n)
+def midOf : (n : Nat) → Mach n → List StateId → Option Nat
+  | 0 => midLevel (fun x _ => x.elim)
+  | n + 1 => midLevel (midOf n)
 
-def snapLine (m : Mach maxDepth) : String := "P S " ++ " ".intercalate (snap maxDepth [] m)
+def viewsOf : (n : Nat) → Mach n → List (Nat × View)
+  | 0 => viewsLevel (fun x => x.elim)
+  | n + 1 => viewsLevel (viewsOf n)
 
-def evTag (ev : Ev) : List String :=
-  let d := s!"depth{ev.path.length}"
+def treeTrace (m : Mach maxDepth) (tr : Trace) : List String :=
+  tr.filterMap fun ev => (kindStr ev.kind).map fun s => s!"P T {(midOf maxDepth m ev.path).getD 999999} " ++ s
+
+/-- the tree's machines show the same observers as the arena's -/
+def treeSnapOk (m : Mach maxDepth) (g : Arena) : Bool :=
+  (viewsOf maxDepth m).all fun (k, v) => g.view k == v
+
+def depthOf (g : Arena) (root k : Nat) : Nat :=
+  match treeNodes (g.length + 1) g root [] with
+  | some nodes => match nodes.find? (·.1 == k) with | some (_, anc) => anc.length | none => 9
+  | none => 9
+
+def evTag (depth : Nat → Nat) (ev : AEv) : List String :=
+  let d := s!"depth{depth ev.mid}"
+  let x := fun (e : Event) => if e.extra != 0 then ["extra"] else []
   match ev.kind with
-  | .enter s _ has => [d, if s == 0 then (if has then "enter-user0" else "enter-term") else "enter"]
+  | .enter s e has => [d, if s == 0 then (if has then "enter-user0" else "enter-term") else "enter"] ++ x e
   | .exit .. => ["exit"]
   | .action _ (some _) _ has => [if has then "route-action" else "route-noaction"]
   | .action _ none _ _ => ["handler-go"]
   | .guard _ i _ r => [if r then "guard-true" else "guard-false", if i > 0 then "guard-later-route" else "guard-first-route"]
   | .handler _ k _ r => [if k.isSome then "hdl-specific" else "hdl-default", if r == -1 then "hdl-stay" else "hdl-target"]
   | .notify a b _ _ => [if a == b then "self-transition" else "chg"]
-  | .obs v => [if v.curr == -1 then "obs-in-action" else if v.next != -1 then "obs-in-exit" else "obs"]
-  | .call .. => ["reentrant-call"]
+  | .obs t v => [if t.isSome then "obs-other" else if v.curr == -1 then "obs-in-action" else if v.next != -1 then "obs-in-exit" else "obs"]
+  | .call t _ r v w =>
+      [if t.isNone || t == some ev.mid then "call-self" else if depth (t.getD 0) < depth ev.mid then "call-up" else "call-down-or-side",
+       if r || v != w then "call-accepted" else "call-no-effect"]
   | .unmodelled => ["UNMODELLED"]
+  | .foreign _ => ["FOREIGN"]
 
-def callTags (c : Call) (before : View) (res : Bool) (tr : Trace) : List String :=
-  let deepExit := tr.any (fun ev => ev.path.length > 0 && match ev.kind with | .exit .. => true | _ => false)
+def callTags (depth : Nat → Nat) (c : Call) (direct : Bool) (before : View) (res : Bool) (tr : ATrace) : List String :=
+  let deepExit := tr.any (fun ev => depth ev.mid > 0 && match ev.kind with | .exit .. => true | _ => false)
   let c1 := match c with
     | .start => [if res then "start-ok" else if before.running then "start-again" else "start-fail"]
     | .stop => [if !before.running then "stop-idle" else if deepExit then "stop-active-sub" else "stop"]
     | .restart => [if before.running then "restart-running" else "restart-idle", if deepExit then "stop-active-sub" else "restart"]
     | .run _ => [if !before.running then "run-idle" else if res then "run-true" else "run-false",
                  if deepExit && before.running then "sub-terminated-or-left" else "run"]
-  (c1 ++ tr.flatMap evTag).eraseDups
+  ((if direct then ["direct-sub-call"] else []) ++ c1 ++ tr.flatMap (evTag depth)).eraseDups
 
-def newRaw : Raw := { init := -1, states := [], cb := none, rt := () }
+def newRec (k : Nat) : ARec := { mid := k, init := -1, states := [], cb := none, rt := {} }
 
-def setAt (l : List Raw) (k : Nat) (r : Raw) : List Raw := l.set k r
+/-- machine `dst` reachable from `src` through sub-machine attachments (or equal) -/
+def reaches : Nat → Arena → Nat → Nat → Bool
+  | 0, _, _, _ => true
+  | f + 1, g, src, dst =>
+    src == dst || ((g.get src).states.filterMap (·.sub)).any (fun j => reaches f g j dst)
 
-/-- one definition line on the machine under construction `k` -/
-def defLine (s : DS) (k : Nat) (r : Raw) (ws : List String) : Option (DS × List String) :=
-  let put (r' : Raw) : DS := { s with pool := setAt s.pool k r' }
+/-- one definition call on machine `k`; answers "<kind> <ret>" -/
+def defCall (s : DS) (k : Nat) (late : Bool) (ws : List String) : Option (DS × String) :=
+  let okT (m : Option Nat) : Bool := !late || (match m with | some t => t < s.g.length | none => true)
   match ws with
   | ["st", sid, en, ex] => do
       let sid ← int? sid; let en ← probe? en; let ex ← probe? ex
       if sid < 0 then none else
-      let (r', ok) := Build.newState r sid en ex
-      pure (put r', ["P st " ++ b01 ok])
+      let mt := maxOpt (optScriptMax en) (optScriptMax ex)
+      if !okT mt then none else
+      let (g', ok) := Def.guarded s.g k (fun r => Build.newState r sid en ex)
+      pure ({ s with g := g', maxT := maxOpt s.maxT mt }, "st " ++ b01 ok)
   | ["rt", src, ev, dst, g, a] => do
-      let src ← int? src; let ev ← int? ev; let dst ← int? dst; let g ← guard? g; let a ← probe? a
-      let (r', ok) := Build.addRoute r src { ev := ev, to := dst, guard := g, action := a }
-      pure (put r', ["P rt " ++ b01 ok])
+      let src ← int? src; let ev ← int? ev; let dst ← int? dst; let gd ← guard? g; let a ← probe? a
+      let mt := maxOpt ((gd.map (·.script)).bind scriptMax) (optScriptMax a)
+      if !okT mt then none else
+      let (g', ok) := Def.guarded s.g k (fun r => Build.addRoute r src { ev := ev, to := dst, guard := gd, action := a })
+      pure ({ s with g := g', maxT := maxOpt s.maxT mt }, "rt " ++ b01 ok)
   | ["ev", sid, ev, tbl, sc] => do
       let sid ← int? sid; let ev ← int? ev; let (tbl, d) ← table? tbl; let sc ← script? sc
-      let (r', ok) := Build.addEvent r sid ev { tbl := tbl, dflt := d, script := sc }
-      pure (put r', ["P ev " ++ b01 ok])
+      let mt := scriptMax sc
+      if !okT mt then none else
+      let (g', ok) := Def.guarded s.g k (fun r => Build.addEvent r sid ev { tbl := tbl, dflt := d, script := sc })
+      pure ({ s with g := g', maxT := maxOpt s.maxT mt }, "ev " ++ b01 ok)
   | ["init", sid] => do
       let sid ← int? sid
-      pure (put (Build.setInitState r sid), ["P init"])
+      pure ({ s with g := Def.always s.g k (fun r => Build.setInitState r sid) }, "init")
   | ["cb", sc] => do
       let sc ← script? sc
-      pure (put (Build.setStateChangedCallback r sc), ["P cb"])
+      let mt := scriptMax sc
+      if !okT mt then none else
+      pure ({ s with g := Def.always s.g k (fun r => Build.setStateChangedCallback r sc), maxT := maxOpt s.maxT mt }, "cb")
   | ["sub", sid, j] => do
       let sid ← int? sid; let j ← nat? j
-      if j ≥ s.pool.length || j == k || s.consumed.contains j then none else
-      let (r', ok) := Build.setSubStateMachine r sid j
-      let s' := put r'
-      pure ({ s' with consumed := if ok then j :: s.consumed else s.consumed }, ["P sub " ++ b01 ok])
-  | ["end"] => pure ({ s with cur := none }, [s!"P end {k}"])
+      if j ≥ s.g.length || s.cur == some j || reaches (s.g.length + 1) s.g j k then none else
+      let (g', ok) := Def.guarded s.g k (fun r => Build.setSubStateMachine r sid j)
+      pure ({ s with g := g' }, "sub " ++ b01 ok)
   | _ => none
-
-def callLine (m : Mach maxDepth) (c : Call) : Mach maxDepth × List String :=
-  let before := m.rt.view
-  let r := applyCall true maxDepth m c
-  let res := match c with | .stop => "-" | _ => b01 r.2.1
-  (r.1, ["B " ++ " ".intercalate (callTags c before r.2.1 r.2.2)] ++ r.2.2.filterMap evStr ++ ["P R " ++ res, snapLine r.1])
 
 def parseCall (ws : List String) : Option Call :=
   match ws with
   | ["start"] => some .start
   | ["stop"] => some .stop
   | ["restart"] => some .restart
-  | ["run", e] => (int? e).map .run
+  | ["run", e] => (event? e).map .run
   | _ => none
+
+/-- trailing "@k" (the word has at least 2 characters and the line at least 2 words) -/
+def splitTarget (ws : List String) : Option (List String × Option Nat) :=
+  match ws.getLast? with
+  | some w =>
+    if ws.length ≥ 2 && w.length ≥ 2 && w.startsWith "@" then
+      (nat? (w.drop 1).toString).map fun k => (ws.dropLast, some k)
+    else some (ws, none)
+  | none => some (ws, none)
+
+def callLine (s : DS) (root : Nat) (k : Nat) (c : Call) : DS × List String :=
+  let before := s.g.view k
+  let r := aCall Fix.all (fuelFor s.g) s.g k c
+  let res := match c with | .stop => "-" | _ => b01 r.2.1
+  let lines := r.2.2.filterMap aevStr
+  let depth := depthOf s.g root
+  let tagLine := "B " ++ " ".intercalate (callTags depth c (k != root) before r.2.1 r.2.2)
+  -- the tree model, when the case is still inside its fragment
+  let (tree', extra) : Option (Mach maxDepth) × List String :=
+    match s.tree with
+    | some m =>
+      if k != root then (none, ["B arena-only"]) else
+      let t := applyCall maxDepth m c
+      let tl := treeTrace t.1 t.2.2
+      if tl == lines && t.2.1 == r.2.1 && treeSnapOk t.1 r.1 then (some t.1, ["B tree-model"])
+      else (none, ["M MODEL-MISMATCH tree=" ++ " | ".intercalate tl])
+    | none => (none, ["B arena-only"])
+  ({ s with g := r.1, tree := tree' }, [tagLine] ++ extra ++ lines ++ ["P R " ++ res, snapLine r.1])
 
 def stepLine (s : DS) (line : String) : DS × List String :=
   let ws := words line
@@ -217,32 +345,48 @@ def stepLine (s : DS) (line : String) : DS × List String :=
   | "case" :: _ => ({}, [line.trimAscii.toString])
   | _ =>
     match s.root with
-    | some m =>
-      match parseCall ws with
-      | some c => let (m', out) := callLine m c; ({ s with root := some m' }, out)
-      | none => (s, ["bad-op"])
+    | some root =>
+      match ws with
+      | "def" :: k :: rest =>
+        match nat? k with
+        | none => (s, ["bad-op"])
+        | some k =>
+          if k ≥ s.g.length || rest.isEmpty then (s, ["bad-op"]) else
+          match defCall s k true rest with
+          | some (s', out) => ({ s' with tree := none }, ["P def " ++ out, snapLine s'.g])
+          | none => (s, ["bad-op"])
+      | _ =>
+        match splitTarget ws with
+        | none => (s, ["bad-op"])
+        | some (ws', tgt) =>
+          let k := tgt.getD root
+          if k ≥ s.g.length then (s, ["bad-op"]) else
+          match parseCall ws' with
+          | some c => callLine s root k c
+          | none => (s, ["bad-op"])
     | none =>
       match s.cur with
       | some k =>
-        match s.pool[k]? with
-        | none => (s, ["bad-op"])
-        | some r =>
-          match defLine s k r ws with
-          | some (s', out) => (s', out)
+        match ws with
+        | ["end"] => ({ s with cur := none }, [s!"P end {k}"])
+        | _ =>
+          match defCall s k false ws with
+          | some (s', out) => (s', ["P " ++ out])
           | none => (s, ["bad-op"])
       | none =>
         match ws with
         | ["mach"] =>
-            let k := s.pool.length
-            ({ s with pool := s.pool ++ [newRaw], cur := some k }, [s!"P mach {k}"])
+            let k := s.g.length
+            ({ s with g := s.g ++ [newRec k], cur := some k }, [s!"P mach {k}"])
         | ["go", k] =>
             match nat? k with
             | none => (s, ["bad-op"])
             | some k =>
-              if k ≥ s.pool.length || s.consumed.contains k then (s, ["bad-op"])
-              else match conv maxDepth s.pool k with
-                | none => (s, ["bad-op"])
-                | some m => ({ s with root := some m }, ["P go", snapLine m])
+              let tOk := match s.maxT with | some t => t < s.g.length | none => true
+              if k ≥ s.g.length || !tOk then (s, ["bad-op"])
+              else
+                let tree := if inFragment s.g k then conv maxDepth s.g k else none
+                ({ s with root := some k, tree := tree }, ["P go", snapLine s.g])
         | _ => (s, ["bad-op"])
 
 def main : IO Unit := runDriver ({} : DS) stepLine
